@@ -32,7 +32,8 @@ inductive Val where
   | ok (v : Val)                          -- `Result::Ok`
   | err (v : Val)                         -- `Result::Err`
   | boxed (v : Val)                       -- `Box<T>`
-  | seq (vs : List Val)                   -- Vec, VecDeque, LinkedList, [T; N], &[T], sets, BinaryHeap; maps as seq of 2-tuples
+  | seq (vs : List Val)                   -- Vec, VecDeque, LinkedList, &[T], sets, BinaryHeap; maps as seq of 2-tuples
+  | array (vs : List Val)                 -- `[T; N]` (N = number of elements): every element counts, in order
   | tuple (vs : List Val)                 -- tuples (1..10)
   | struct (fields : List Val)            -- `#[derive(MessageBody)] struct` (named, unnamed or unit)
   | enum (variant : Nat) (fields : List Val) -- `#[derive(MessageBody)] enum`: the active variant and its fields
@@ -51,6 +52,7 @@ def byteLen : Val → Nat
   | .err v => byteLen v
   | .boxed v => byteLen v
   | .seq vs => foldLen 0 vs               -- `iter().fold(0, |acc, v| acc + v.byte_len())` / `for … sum += …`
+  | .array vs => foldLen 0 vs             -- `let mut sum = 0; for element in self { sum += element.byte_len() }; sum`
   | .tuple vs => sumLen vs                -- `A.byte_len() + B.byte_len() + … + 0`
   | .struct fs => sumLen fs               -- derive: `<T1>::byte_len(&self.f1) + … + 0`
   | .enum _ fs => sumLen fs               -- derive: `match self { V(fields…) => <T1>::byte_len(f1) + … + 0 }`
